@@ -49,7 +49,7 @@ def oracle(case, replies):
 
 def gen_cases(rng, tier):
     if tier == "quick":
-        yield from ll.gen_ll_cases(rng, 3000, 3, sentences=12, hidden_share=0.3, diags=(), sent_maxlen=5)
+        yield from ll.gen_ll_cases(rng, 1500, 3, sentences=12, hidden_share=0.3, diags=(), sent_maxlen=5)
     else:
         yield from ll.gen_ll_cases(rng, 30000, 4, sentences=20, hidden_share=0.3, diags=(), sent_maxlen=5)
         yield from ll.tiny_grammars(rng, limit=20000, inputs_len=4)
